@@ -12,11 +12,12 @@ Local Open Scope Z_scope.
 (* bytes of a C string *)
 Definition nonzero (v : list Z) : bool := forallb (fun c => negb (c =? 0)) v.
 
-(* identifier: [A-Za-z_][A-Za-z0-9_]* that is not an operator word (sizeof, new, ...) *)
+(* identifier: [A-Za-z_][A-Za-z0-9_]* that is not an operator word (sizeof, new, ...) nor true/false *)
 Definition spec_ident (ops : list oper) (v : list Z) : bool :=
   match v with
   | [] => false
   | c :: r => identStart c && forallb identChar r && negb (has_op ops v)
+              && negb (list_eqb v str_true) && negb (list_eqb v str_false)
   end.
 
 (* user-defined suffix of a literal: empty, or _ident *)
@@ -89,16 +90,17 @@ Definition spec_prim (v : list Z) : bool :=
   | [] => false
   | c :: _ => negb ((c =? 43) || (c =? 45)) &&
     match load (length v + 1) true (v ++ [0]) with
-    | Ok (Some [z]) => true
+    | Ok (Some r) => list_eqb r [0]
     | _ => false
     end
   end.
 
 (* an operator token of the table that is not a comment opener *)
+Definition oper_eqb (a b : oper) : bool :=
+  list_eqb (op_sym a) (op_sym b) && ot_eqb (op_type a) (op_type b) && (op_prec a =? op_prec b)
+  && (op_class a =? op_class b) && list_eqb (op_pair a) (op_pair b).
 Definition spec_op (ops : list oper) (o : oper) : bool :=
-  existsb (fun o' => list_eqb (op_sym o') (op_sym o) && ot_eqb (op_type o') (op_type o)
-                     && (op_prec o' =? op_prec o)) ops
-  && negb (ot_has (op_type o) ot_comment).
+  existsb (oper_eqb o) ops && negb (ot_has (op_type o) ot_comment).
 
 (* a byte that starts no token class *)
 Definition spec_unknown (ops : list oper) (c : Z) : bool :=
